@@ -16,6 +16,8 @@ const (
 // intermediate temporary file that is swapped in place using a rename
 // operation.
 func WriteFileAtomic(path string, data []byte, permissions os.FileMode) error {
+	verifAtomicStep(1, path)
+
 	// Create a temporary file. The os package already uses secure permissions
 	// for creating temporary files, so we don't need to change them.
 	temporary, err := os.CreateTemp(filepath.Dir(path), atomicWriteTemporaryNamePrefix)
@@ -24,6 +26,7 @@ func WriteFileAtomic(path string, data []byte, permissions os.FileMode) error {
 	}
 
 	// Write data.
+	verifAtomicStep(2, temporary.Name())
 	if _, err = temporary.Write(data); err != nil {
 		temporary.Close()
 		os.Remove(temporary.Name())
@@ -31,18 +34,21 @@ func WriteFileAtomic(path string, data []byte, permissions os.FileMode) error {
 	}
 
 	// Close out the file.
+	verifAtomicStep(3, temporary.Name())
 	if err = temporary.Close(); err != nil {
 		os.Remove(temporary.Name())
 		return fmt.Errorf("unable to close temporary file: %w", err)
 	}
 
 	// Set the file's permissions.
+	verifAtomicStep(4, temporary.Name())
 	if err = os.Chmod(temporary.Name(), permissions); err != nil {
 		os.Remove(temporary.Name())
 		return fmt.Errorf("unable to change file permissions: %w", err)
 	}
 
 	// Rename the file.
+	verifAtomicStep(5, temporary.Name())
 	if err = Rename(nil, temporary.Name(), nil, path, true); err != nil {
 		os.Remove(temporary.Name())
 		return fmt.Errorf("unable to rename file: %w", err)
